@@ -548,7 +548,59 @@ def rule_reserved(ctx, res):
     res.check(strips and collects, 'R-C02-reserved', q,
               'lines stripped and collected', '',
               'keep-file lines are not stripped / collected', f.loc)
+    _keep_file_evaluated(ctx, res, cls, f)
     res.require_min('R-C02-reserved', 5)
+
+
+def _keep_file_evaluated(ctx, res, cls, f):
+    """read_names_file evaluated on a stand-in file: the names are exactly
+    the stripped lines that are neither blank nor comments"""
+    from ..absint import cx as CX
+    lines = [b'# names to keep\n', b'alpha\n', b'\n', b'  beta  \n',
+             b'   # indented comment\n', b'\t\n', b'gamma\r\n', b'alpha\n',
+             b'#x\n', b'delta']
+    want = {b'alpha', b'beta', b'gamma', b'delta'}
+    cxi = CX.Cx(ctx.model, ctx.consts)
+    opened = []
+
+    def opn(c, a, k):
+        opened.append((a, k))
+        fo = CX.Opaque('file', {'close': lambda c2, a2, k2: None,
+                                'readlines': lambda c2, a2, k2: list(lines),
+                                'read': lambda c2, a2, k2: b''.join(lines)})
+        fo.methods['__enter__'] = lambda c2, a2, k2: fo
+        fo.methods['__exit__'] = lambda c2, a2, k2: None
+        fo.methods['__iter__'] = lambda c2, a2, k2: list(lines)
+        return fo
+    cxi.ext_hooks = {'open': opn}
+    inst = 'the kept names are the stripped, non-blank, non-comment lines ' \
+        'of the file (evaluated)'
+    try:
+        paths = cxi.explore(lambda: cxi.call(
+            cxi.getattr(CX.ClassVal(cls), f.name), ['names.txt'], {}))
+        if len(paths) != 1 or paths[0][0]:
+            raise CX.CxError('forks')
+        kind, val = paths[0][1]
+        if kind == 'raise':
+            res.violation('R-C02-reserved', f.qual, inst,
+                          'reading a keep file with comments, blank lines '
+                          'and padded names raises {}'.format(val.tname),
+                          f.loc, semantic=True)
+            return
+        got = set()
+        for x in cxi.items(val):
+            if isinstance(x, CX.Seq):
+                x = bytes(x.items)
+            got.add(x)
+    except AnalysisError as e:
+        res.info('R-C02-reserved', f.qual, inst, 'not followed: ' +
+                 str(e)[:100], f.loc)
+        return
+    res.check(got == want, 'R-C02-reserved', f.qual, inst,
+              '10-line stand-in file', 'from the lines {} the names kept are '
+              '{} instead of {}'.format(
+                  [l.strip() for l in lines], sorted(got), sorted(want)),
+              f.loc, semantic=True)
 
 
 def rule_factory(ctx, res):
